@@ -205,8 +205,8 @@ def rule_error_selection(ctx):
     where = ctx.where(f, fn.node)
     t = A.fn_text(fn)
     checks = [
-        ("explicit-filter", ["let explicit=iter.clone().filter(|(_,_,info)|matches!(value(info),Some(true)))"], "explicit candidates are exactly the fields whose attribute value is `Some(true)`"),
-        ("inferred-filter", ["let inferred=iter.filter(|(_,field,info)|match value(info){None=>is_valid_default_field_for_attr(attr,field,len),_=>false})"], "inferred candidates are the un-annotated (`None`) fields accepted by the layout's default predicate; `Some(false)` never qualifies"),
+        ("explicit-filter", ["let explicit=iter.clone().filter(|(_,_,info)|matches!(value(info),Some(true)))", "let explicit=iter.clone().filter(|(_,_,info)|value(info)==Some(true))"], "explicit candidates are exactly the fields whose attribute value is `Some(true)`"),
+        ("inferred-filter", ["let inferred=iter.filter(|(_,field,info)|match value(info){None=>is_valid_default_field_for_attr(attr,field,len),_=>false})", "let inferred=iter.filter(|(_,field,info)|value(info).is_none()&&is_valid_default_field_for_attr(attr,field,len))", "let inferred=iter.filter(|(_,field,info)|{value(info).is_none()&&is_valid_default_field_for_attr(attr,field,len)})"], "inferred candidates are the un-annotated (`None`) fields accepted by the layout's default predicate; `Some(false)` never qualifies"),
         ("explicit-unique", ["let first=assert_iter_contains_zero_or_one_item(explicit,"], "two explicit candidates are an error"),
         ("precedence", ["let chosen=match first{first@Some(_)=>first,None=>assert_iter_contains_zero_or_one_item(inferred,"], "explicit beats inferred; two inferred candidates are an error"),
     ]
